@@ -71,6 +71,22 @@ PROPS = {
              "EIRP: all 256 index bytes, +-3 ulp around every table entry, random float32 bit patterns, infinities, NaN, denormals",
              trusted=["gps hook VerifLeapTable", "time.Time arithmetic modelled as integer nanoseconds (no saturation inside 1678..2262)", "IEEE-754 binary64 division modelled exactly on integers (LW.fdivCeil), validated against Go on every payload-symbol op"],
              exhaustive_parts=["payload-symbol count: payload 0..255 x SF 5..12 x CR 1..4 x header x LDRO", "all 256 EIRP index bytes", "thorough: full airtime product"]),
+    "C09": P("every frame length 0..512 for each MType (binary and base64), all 1-byte frames (all 2-byte frames in thorough), uniform strings at the lengths the decoders single out, structure-aware mutations (bit flip, truncate, extend, splice, overwrite, delete; up to two rounds) of valid frames of all kinds, "
+             "the FOptsLen x remaining-length grid; decrypt-then-decode of FOpts / FRMPayload and join-accept decryption with random keys on all of these; every MAC payload type at every length 0..size+4, MACCommand for all 2x256 CIDs, command streams (random, mutated valid streams, registry CIDs with random tails); "
+             "CFList at every length 0..40; the four application-layer decoders in both directions (all 256 CIDs, every length 0..64, registry CIDs with wrong-size tails); backend text types on arbitrary bytes; key envelopes of every length 0..56; json.Unmarshal of the 23 payload structs on valid, mutated and random text; identifier text / binary forms. "
+             "For every op: result, PANIC, HANG (10 s watchdog) and whether the input buffer or the 16 canary bytes behind it were written",
+             trusted=["LW/Model/Checked.lean is a hand transcription of the Go index expressions; the driver compares it with the total decoders on every op and the theorems prove equality / absence of panics for all inputs",
+                      "running time is only bounded by the 10 s watchdog per op (no complexity claim is proved)",
+                      "json.Unmarshal into the payload structs and base64 decoding are observed, not modelled beyond LW/Model/Base64.lean"],
+             exhaustive_parts=["all 1-byte frames; all 2-byte frames in the thorough tier", "all 2x256 CIDs through MACCommand.UnmarshalBinary and the four application-layer Command decoders", "FOptsLen 0..15 x remaining length 0..29"]),
+    "C10": P("overwrite-and-look-again on decoded frames (valid, mutated and random inputs), proprietary / data payloads and application-layer command lists; every encoder output (frame, text, each reachable payload) overwritten; Validate* / Marshal* with random keys on frames of all kinds; "
+             "EncryptFRMPayload at every length 0..64 and EncryptFOpts at every length 0..18 with 16 canary bytes of spare capacity behind the slice; decoding into a used value for every MAC payload type (receiver all-ones / random, input all-zero / random), PHYPayload, MACPayload (with and without FOpts / FPort / FRMPayload in both orders), "
+             "JoinAcceptPayload (28 then 12 bytes and back), both CFList payloads, every application-layer payload and command list; two band instances per configuration with random histories on one of them; "
+             "the concurrent workload of harness/race (decode from shared buffers, MIC / crypto on own values, registry reads vs registrations, own band instances, application layer, join-server handler) under the Go race detector: 8 goroutines x 150 rounds (quick), 16 x 2500 x 3 seeds + 4 x 4000 + 32 x 600 (thorough)",
+             trusted=["aliasing, band-instance isolation and data races are OBSERVED on the implementation (overwrite-and-look-again, canaries, race detector): a pure model cannot exhibit them - this part is testing",
+                      "LW/Model/Slice.lean: Go's append / spare-capacity semantics as a model of one backing array",
+                      "the race detector only sees the interleavings that occur; GOMAXPROCS = available cores"],
+             race=True, widen_thorough=False),
     "C16": P("requests through http.Handler.ServeHTTP (httptest recorder) built from the repo's own payload structs: join-requests and rejoin-requests type 0/1/2 with random keys, EUIs, nonces, NetIDs, DevAddrs, DLSettings (OptNeg both ways), "
              "RxDelay, CFList absent / channel list / channel masks, NS and AS KEKs of 16/24/32 bytes or absent, boundary JoinNonces; 1 in 3 deliberately off: unknown DevEUI, wrong MIC, malformed SenderID / ReceiverID, JoinNonce overflow / negative, RxDelay out of range, "
              "malformed CFList, invalid KEK sizes, wrong frame kind, truncated frame, DevEUI mismatch; plus batches of 3..8 requests sent from 2..8 goroutines at once through one handler and compared with the sequential answers",
@@ -169,6 +185,20 @@ MANIFEST_TEXT = {
              "C20_ceil_exact (exact binary64 model, kernel-evaluated over the whole domain), C20_airtime_formula / _total / _mono, C20_eirp_table + C20_eirp (largest entry not exceeding x, for every float32). Go results are also judged against the spec formulas.",
         note="Trusted: Lean kernel; hooks + dump; the IERS date list and Semtech formula as transcribed; integer model of time.Time; the exact-float model. One genuine defect repaired (leap boundary one second early). sensitivity.go carries no clause and is not modelled.",
         technique="Lean 4 proof (induction over the leap table, kernel evaluation of an exact float model, monotonicity) + differential correspondence"),
+    "C09": dict(
+        text="Lean theorems for EVERY byte string: C09_phy_total / C09_macpayload_total / C09_fhdr_total (the Go index expressions, transcribed with panicking slice / index primitives, never leave the buffer and equal the total decoders), "
+             "C09_stream_total (cursor arithmetic of the MAC-command loop, any registry with non-negative sizes) + C09_generated_registry_nonneg, C09_app_offsets_total (offsets derived from mask / status bits), C09_app_streams_total, C09_app_payloads_total. "
+             "The harness runs every decoder entry point on generated, mutated and exhaustive-small inputs and reports PANIC, HANG and writes to the input buffer; the driver cross-checks the transcriptions against the total decoders on every op.",
+        note="PARTIAL: running time (only a 10 s watchdog), writes to the input buffer, base64 and json.Unmarshal of the payload structs are observed, not proved. The transcription of the index expressions is by hand. "
+             "Panics found earlier by this machinery and repaired are listed under C07 / C12 / C15 / C17 / C18 / C19.",
+        technique="Lean 4 proof (bounds of every index expression; checked = total decoder) + differential correspondence with panic / hang / input-write observation"),
+    "C10": dict(
+        text="Lean theorems: C10_encryptfrm_memory (EncryptFRMPayload leaves every byte outside the slice unchanged, for any spare capacity, any lawful cipher; model of Go slices with append), C10_old_code_wrote_spare_capacity (the repaired defect), "
+             "C10_*_receiver_independent (no field of a decoded MAC payload / ChMask / FHDR / MACPayload / JoinAccept / CFList payload depends on what the receiver held). "
+             "Aliasing, inspect-only operations, band-instance isolation and data races are observed on the implementation: overwrite-and-look-again, canaries, two instances, Go race detector.",
+        note="PARTIAL by nature: aliasing and data races live in Go's memory model and scheduler; the model's functions are pure and cannot exhibit them, so for those clauses the check is a (structured, seeded) test with the race detector. "
+             "Four genuine defects found and repaired (input aliasing, marshal aliasing, spare-capacity overwrite, decode into a used value).",
+        technique="Lean 4 proof (slice / append memory model, receiver independence) + differential observation + go build -race"),
     "C16": dict(
         text="Lean theorems for ANY lawful block cipher and all keys / EUIs / nonces / settings: C16_join_success (correct MIC + known device => Success; the device, modelled from the specification, decrypts the join-accept to exactly "
              "JoinNonce | NetID | requested DevAddr | DLSettings | RxDelay | CFList, accepts its MIC, and the key envelopes open with the configured KEKs to the keys the device derives, 1.0 or 1.1 by OptNeg), C16_wrong_mic, C16_unknown_device, "
